@@ -178,6 +178,17 @@ def check_literals(ctx: Ctx, prop_rule: str, env: EnvA, sl, root, lits, what: st
                                              "; ".join((f"`{k}` enters with sign(s) {v}, the constraint needs {sorted(exp[k])}" if exp[k] else f"`{k}` is not part of the constraint but enters its inequality with sign(s) {v}") for k, v in wrong.items()) +
                                              " -- a term of the inequality was flipped / a flag is used with the wrong polarity, so the constraint admits infeasible or hides feasible actions"),
                    construct=f"{sl.fi.qualname}:{lit.name}:term-sign:" + ",".join(sorted(wrong)))
+        if lit.kind == "cmp" and leaf.cmp() is not None and lit.legs is not None:
+            # travelled legs: distance atoms of the admit polynomial.  A leg more than the reference budgets a distance twice (the
+            # OP limit stored by _reset already has the way back subtracted), a leg less forgets one
+            legs_ = [a_ for a_ in leaf.cmp()[0].atoms() if nf._fn(a_) in nf.DIST_FN or (a_.op == "meth" and a_.args[1] == "norm") or nf._fn(a_) in ("torch.norm", "torch.linalg.norm", "torch.cdist")]
+            lid = "C01.q" if direction == "looser" else "C05.d"
+            okl = len(legs_) == lit.legs if direction == "looser" else len(legs_) <= lit.legs
+            okl = okl if direction == "tighter" else len(legs_) >= lit.legs
+            ctx.ob(lid, inst + ":legs", okl, sl.where,
+                   f"{show_leaf(leaf)}: {len(legs_)} travelled leg(s) in the inequality, the constraint has {lit.legs}" +
+                   ("" if okl else (" -- a distance is budgeted twice: feasible actions are hidden" if direction == "tighter" else " -- a leg is missing: infeasible actions are offered")),
+                   construct=f"{sl.fi.qualname}:{lit.name}:legs")
         if lit.kind == "cmp" and leaf.cmp() is not None:
             # the two sides are compared as real numbers: a side that is truncated to an integer (or cast to the dtype of
             # integer instance data) moves by up to one unit -- a vehicle arriving 0.9 after the deadline is `in time`
@@ -1118,6 +1129,28 @@ def configured_requirements(ctx: Ctx, env: EnvA):
                construct=f"{env.name}._reset:configured:{cell}")
 
 
+def no_config_sizes_at_step_time(ctx: Ctx, env: EnvA, rule_id: str = "C01.x", methods=("_step", "get_action_mask", "_get_reward", "check_solution_validity")):
+    """C01.x (step-time half) the transition, the mask, the reward and the checker size their index arithmetic from the instance
+    they are given (`td[...].shape`), never from `self.generator.num_*`: one env object is routinely driven with instances of
+    another size, for which a configured stride / clamp bound silently addresses the wrong customers.  On today's tree no
+    constructive env reads a generator size in these methods (expected count zero; positive controls in the corpus)."""
+    import ast
+    for meth in methods:
+        try:
+            fi = env.resolve(meth)
+        except Exception:
+            fi = None
+        if fi is None:
+            continue
+        ctx.fn(fi)
+        reads = [n for n in ast.walk(fi.node) if isinstance(n, ast.Attribute) and (n.attr.startswith("num_") or n.attr.startswith("n_")) and isinstance(n.value, ast.Attribute) and n.value.attr == "generator"
+                 and isinstance(n.value.value, ast.Name) and n.value.value.id == "self"]
+        ctx.ob(rule_id, f"{env.name}.{meth}:sizes-from-the-instance", not reads, fi.loc,
+               "no read of self.generator.<size> in this method" if not reads else
+               f"`{ast.unparse(reads[0])}` (line {reads[0].lineno}): a size of the env's configuration is used where the instance's own size is needed",
+               construct=f"{env.name}.{meth}:config-size")
+
+
 def instance_sized_state(ctx: Ctx, env: EnvA, rule_id: str = "C01.x", keys=("action_mask", "available", "visited", "to_deliver")):
     """C01.x the per-node state of a freshly reset instance (mask, availability / visited / to-deliver flags) has one entry
     per node OF THAT INSTANCE: the size tuples of its constructors are taken from the incoming TensorDict's tensors, not from
@@ -1206,6 +1239,7 @@ def run(ctx: Ctx):
         clock_update(ctx, env)
         configured_requirements(ctx, env)
         instance_sized_state(ctx, env)
+        no_config_sizes_at_step_time(ctx, env)
         if cname == "SVRPEnv":
             svrp_last_technician(ctx, env, sl, root)
         if cname == "MTSPEnv":
@@ -1221,7 +1255,7 @@ def run(ctx: Ctx):
                 units.obligations(ctx, "C01.u", f"{cname}.{nm}", s_.it, s_.fr, s_.where, floor)
 
 
-def mtsp_agent_counter(ctx: Ctx, env: EnvA):
+def mtsp_agent_counter(ctx: Ctx, env: EnvA, rid: str = "C01.s"):
     """C01.s mTSP: at most `num_agents` sub-tours.  The mask keeps the depot closed once `agent_idx` has reached num_agents - 1,
     so the counter has to count every return to the depot and nothing else: agent_idx' = agent_idx + [action == 0]."""
     sl = env.slot("_step")
@@ -1242,7 +1276,14 @@ def mtsp_agent_counter(ctx: Ctx, env: EnvA):
                 at_depot = c is not None and c[1] == "==0" and c[0].const_term() == 0 and vg.cells_of(x) == {"action"}
                 ok = atoms[old[0]] == 1 and atoms[ind[0]] == 1 and at_depot
                 why = f"agent_idx' = {atoms[old[0]]} * agent_idx + {atoms[ind[0]]} * [{vg.show(x, 3)}]: counts exactly the returns to the depot -- {ok}"
-    ctx.ob("C01.s", "MTSPEnv._step:agent_idx:counts-depot-returns", ok, sl.where, why + ("" if ok else " -- the mask's `agents left` test then allows more sub-tours than agents (or fewer)"),
+    # ... starting from zero: no agent has returned when the episode begins (the mask compares with num_agents - 1, 0-based)
+    rs = env.slot("_reset")
+    v0 = nf.strip(rs.td.cells.get("agent_idx")) if rs is not None and rs.td is not None and isinstance(rs.td.cells.get("agent_idx"), vg.S) else None
+    zero0 = v0 is not None and (nf._fn(v0) in ("torch.zeros", "torch.zeros_like") or (nf._fn(v0) in ("torch.full", "torch.full_like") and any(vg.is_const(a, 0) for a in v0.args[1:])))
+    ctx.ob(rid, "MTSPEnv._reset:agent_idx:starts-at-zero", zero0, rs.where if rs is not None else sl.where,
+           f"agent_idx at reset = {vg.show(v0, 2)[:60] if v0 is not None else None}" + ("" if zero0 else " -- the 0-based `agents left` test of the mask then allows one sub-tour fewer (or more) than there are agents"),
+           construct="MTSPEnv._reset:agent_idx:init")
+    ctx.ob(rid, "MTSPEnv._step:agent_idx:counts-depot-returns", ok, sl.where, why + ("" if ok else " -- the mask's `agents left` test then allows more sub-tours than agents (or fewer)"),
            construct="MTSPEnv._step:agent_idx:formula")
 
 
